@@ -131,6 +131,23 @@ Proof.
   exists n, r0. unfold issue_refresh in Hiss. injection Hiss as _ <-. cbn [t_sub t_at_sub]. auto.
 Qed.
 
+(* the refreshed tokens keep the audience of the grant: the JWT access token exactly (the client
+   only for a grant without audience), the ID token with the client added when missing *)
+Lemma keeps_audience pl r s cr rt scopes s' t :
+  step H cf r s (TokenRefresh pl cr rt scopes) = (s', OTokens t) ->
+  exists n r0, rt = Some n /\ find_rt s n = Some r0
+    /\ t_aud t = aud_with (r_client r0) (r_aud r0)
+    /\ (t_jwt t <> None -> t_at_aud t = match r_aud r0 with [] => [r_client r0] | _ => r_aud r0 end)
+    /\ (exists new, find_rt s' (match t_rt t with Some m => m | None => 0 end) = Some new /\ r_aud new = r_aud r0).
+Proof.
+  intro Hs. apply step_trans in Hs.
+  apply trans_refresh_inv in Hs as [n [r0 [c [sc [-> [Hrt [_ [_ [_ [_ [_ Hiss]]]]]]]]]]].
+  exists n, r0. unfold issue_refresh in Hiss. injection Hiss as <- <-. cbn [t_aud t_jwt t_at_aud t_rt].
+  repeat split; auto.
+  - destruct (c_jwt c); [reflexivity | congruence].
+  - eexists. unfold find_rt. cbn [rtoks find r_id]. rewrite Nat.eqb_refl. split; reflexivity.
+Qed.
+
 (* a request that was in flight while another operation ran is answered as if sent alone *)
 Lemma overlap_alone r s cr rt scopes :
   step H cf r s (TokenRefresh P_overlap cr rt scopes) = step H cf r s (TokenRefresh P_body cr rt scopes).
@@ -300,7 +317,7 @@ Definition ex_ev (k : nat) : event := nth k ex_h {| e_pre := init; e_r := Provid
 Definition ex_tok (k : nat) : tokresp :=
   match e_out (ex_ev k) with
   | OTokens t => t
-  | _ => {| t_at := 0; t_at_sub := ""; t_jwt := None; t_rt := None; t_sub := ""; t_aud := []; t_azp := "";
+  | _ => {| t_at := 0; t_at_sub := ""; t_jwt := None; t_at_aud := []; t_rt := None; t_sub := ""; t_aud := []; t_azp := "";
             t_nonce := ""; t_auth := 0; t_scope := [] |}
   end.
 
@@ -321,7 +338,7 @@ Qed.
    shrinks from [openid; offline_access; email] to [openid; email] to [openid], a superset is refused
    in between, and the three responses form a chain ---- *)
 Definition ex_cfg_keep : cfg :=
-  {| f_post := true; f_pkjwt := true; f_refresh := true; f_reqobj := true; f_keep := true; clients := clients ex_cfg |}.
+  {| f_post := true; f_pkjwt := true; f_refresh := true; f_reqobj := true; f_keep := true; f_aud := Some ["https://api"]; clients := clients ex_cfg |}.
 Definition ex_ops_keep : list (router * op) :=
   [ (Provider, Authorize "web" "https://web/cb" ["openid"; "offline_access"; "email"] "n" None no_extra);
     (Provider, Login 1 "alice" 3);
